@@ -106,7 +106,7 @@ class Engine:
         if not pcs:
             return True
         s = z3.Solver()
-        s.set("timeout", 150)
+        s.set("timeout", 40)
         s.add(*pcs)
         r = s.check()
         if r == z3.unsat:
